@@ -19,6 +19,7 @@ def penalties():
     D1 = np.diff(np.eye(3), axis=0)
     D2 = np.diff(np.eye(4), n=2, axis=0)
     return {"RW1(3x3, rank 2)": (D1.T @ D1).astype(np.float32), "identity(3x3, full rank)": np.eye(3, dtype=np.float32),
+            "2e-7 * RW1(3x3): eigenvalues below the 1e-6 tolerance, rank 2 supplied by the builder": (2e-7 * (D1.T @ D1)).astype(np.float32),
             "rank-1(2x2)": np.array([[1.0, -1.0], [-1.0, 1.0]], dtype=np.float32), "RW2(4x4, rank 2)": (D2.T @ D2).astype(np.float32)}
 
 
@@ -177,7 +178,7 @@ def main():
     chk = Check("C13")
     obs = []
     pens = penalties()
-    pn = ["RW1(3x3, rank 2)", "identity(3x3, full rank)"] if chk.tier == "quick" else list(pens)
+    pn = ["RW1(3x3, rank 2)", "identity(3x3, full rank)", "2e-7 * RW1(3x3): eigenvalues below the 1e-6 tolerance, rank 2 supplied by the builder"] if chk.tier == "quick" else list(pens)
     for p in pn:
         res = chk.guarded(f"tau2:{p}:trace", f"tracing tau2_gibbs_kernel[{p}]", tau2_scenario, chk, p, pens[p])
         if res:
